@@ -52,6 +52,17 @@ Definition show_res (r : res url) : sx :=
   | Raise e => show_exn e
   end.
 
+(* Request.url (baize/wsgi/requests.py, baize/asgi/requests.py HTTPConnection.url): build the URL, read
+   .port once; a ValueError from either (a Host header that is no host[:port], text that is not UTF-8)
+   is answered with HTTPException(400) *)
+Definition show_request_url (x : res url) : sx :=
+  let http400 := Lst [tag (lit "exc"); tag (lit "HTTPException")] in
+  match x with
+  | Ok u => match port_of (netloc (ucomps u)) with Raise _ => http400 | Ok _ => show_url u end
+  | Raise ValueError => http400
+  | Raise e => show_exn e
+  end.
+
 Definition opt_str (s : sx) : option str :=
   match s with
   | Lst [Str t] => Some t
@@ -119,10 +130,10 @@ Definition run (c : list sx) : list sx :=
         let r := {| r_scheme := sch; r_server := server_of server; r_host := opt_str host;
                     r_root := root; r_path := pth; r_query := qs |} in
         [match environ_url r with
-         | Some x => show_res x
+         | Some x => show_request_url x
          | None => Lst [tag (lit "n/a")]
          end;
-         show_res (scope_url r)]
+         show_request_url (scope_url r)]
       else [tag (lit "badcase")]
   | [Str op; Str text] =>
       if str_eqb op (lit "split") then
